@@ -131,25 +131,45 @@ func (f LeveldbDiskStorage) errLog(err error, format string, args ...interface{}
 var _ Storage = LeveldbDiskStorage{}
 
 func newDiskDb(path string, nuke bool) *leveldb.DB {
-	if nuke {
-		// Move the directory out of the way in one step before deleting it: if the process dies while the
-		// files are being removed, a half-deleted database (which leveldb refuses to open) is not found
-		// under the table's name at the next start.
-		trash := path + ".deleted"
-		_ = os.RemoveAll(trash)
-		if err := os.Rename(path, trash); err == nil {
-			_ = os.RemoveAll(trash)
-		} else {
-			_ = os.RemoveAll(path)
-		}
-	}
-
-	db, err := leveldb.OpenFile(path, &opt.Options{
+	opts := &opt.Options{
 		Comparer:                     comparer.DefaultComparer,
 		Compression:                  opt.NoCompression,
 		DisableBufferPool:            true,
 		DisableLargeBatchTransaction: true,
-	})
+	}
+	// A database that is being created is not openable until leveldb has written its CURRENT file (a process
+	// that dies in between leaves a directory leveldb refuses to open), so a fresh database is built under
+	// another name and moved into place in one step once it is complete.
+	fresh := path + ".new"
+	if nuke {
+		_ = os.RemoveAll(fresh)
+		db, err := leveldb.OpenFile(fresh, opts)
+		if err != nil {
+			panic(err)
+		}
+		if err := db.Close(); err != nil {
+			panic(err)
+		}
+		// Move the old directory out of the way in one step before deleting it: if the process dies while the
+		// files are being removed, a half-deleted database (which leveldb refuses to open) is not found
+		// under the table's name at the next start.
+		trash := path + ".deleted"
+		_ = os.RemoveAll(trash)
+		if err := os.Rename(path, trash); err != nil {
+			_ = os.RemoveAll(path)
+		}
+		if err := os.Rename(fresh, path); err != nil {
+			panic(err)
+		}
+		_ = os.RemoveAll(trash)
+	} else if _, err := os.Stat(path); os.IsNotExist(err) {
+		// The process died between the two renames above: the complete fresh database is still waiting.
+		if _, err := os.Stat(fresh); err == nil {
+			_ = os.Rename(fresh, path)
+		}
+	}
+
+	db, err := leveldb.OpenFile(path, opts)
 	if err != nil {
 		panic(err)
 	}
